@@ -1,6 +1,120 @@
-From Coq Require Import List ZArith Bool.
+(* C65 Executor backends behave like map and starmap.
+   Statements only; every proof is `exact <lemma>` from Disc/ExecutorProofs.v.
+   [pinned] = the dispatch code of the pinned commit, [fixed_map] = with PyNativeExec.map packing by the
+   number of iterables, [fixed_all] = additionally kwargs forwarded in the starmap fallback / Pool.apply.
+   All statements quantify over every backend, signature shape, argument list, keyword arguments and
+   every completion order [perm] in which each task eventually completes ([covers]). *)
+From Coq Require Import List ZArith Bool Permutation.
 From PLV Require Import Disc.ExecutorModel Disc.ExecutorProofs.
 Import ListNotations.
-Theorem tmp_placeholder : @collect res [] = Some [].
-Proof. exact placeholder_collect_nil. Qed.
-Print Assumptions tmp_placeholder.
+Open Scope Z_scope.
+
+(* the pool contract used below: results by index, whatever the completion order *)
+Theorem pool_order_independent : forall (T A : Type) (run : T -> option A) perm tasks,
+  covers perm (length tasks) -> pool_eval run perm tasks = collect (map run tasks).
+Proof. exact @pool_eval_spec. Qed.
+Print Assumptions pool_order_independent.
+
+Theorem permutations_cover : forall perm n, Permutation (seq 0 n) perm -> covers perm n.
+Proof. exact permutation_covers. Qed.
+Print Assumptions permutations_cover.
+
+(* submit = the direct call (multiprocessing pool: without keyword arguments, see the refutation) *)
+Theorem submit_spec : forall be f args kw,
+  (be = MPPool -> kw = []) -> exec_submit_gen pinned be f args kw = spec_submit f args kw.
+Proof. exact submit_spec_pinned. Qed.
+Print Assumptions submit_spec.
+
+Theorem submit_mp_kwargs_refuted : exists f args kw r,
+  spec_submit f args kw = Some r /\ exec_submit_gen pinned MPPool f args kw = None.
+Proof. exists g11, [AInt 7], [(0%nat, AInt 4)]. eexists. exact submit_mp_kwargs_witness. Qed.
+Print Assumptions submit_mp_kwargs_refuted.
+
+(* map = builtin map (zip truncated to the shortest iterable), for ANY packing decision [v_unpack q],
+   on the branch where the iterables are unpacked; the multiprocessing pool needs equal lengths
+   (zip strict, the documented precondition) and routes one iterable through the decision *)
+Theorem map_spec : forall q be perm f iters kw,
+  iters <> [] -> covers perm (minlen iters) ->
+  (be <> MPPool -> v_unpack q (map_unpack (cfg_of be)) (nparams f) (length iters) = true) ->
+  (be = MPPool ->
+     (1 < nparams f /\ uniform iters = true) \/
+     (nparams f <= 1 /\ (exists it, iters = [it]) /\ v_unpack q false (nparams f) 1%nat = true)) ->
+  exec_map_gen q be perm f iters kw = spec_map f iters kw.
+Proof. exact map_spec_gen. Qed.
+Print Assumptions map_spec.
+
+(* pinned code: map is correct for every function whose signature has more than one parameter *)
+Theorem map_spec_pinned_multi_param : forall be perm f iters kw,
+  iters <> [] -> covers perm (minlen iters) -> 1 < nparams f ->
+  (be = MPPool -> uniform iters = true) ->
+  exec_map_gen pinned be perm f iters kw = spec_map f iters kw.
+Proof. exact map_spec_pinned. Qed.
+Print Assumptions map_spec_pinned_multi_param.
+
+(* pinned code, signature arity 1, one iterable: map is NOT map, on every backend *)
+Theorem map_one_param_refuted : forall be, exists perm f iters kw r,
+  length iters = 1%nat /\ nparams f = 1 /\ covers perm (minlen iters) /\
+  spec_map f iters kw = Some r /\ exec_map_gen pinned be perm f iters kw <> Some r.
+Proof.
+  intros be. destruct (map_one_param_witness be) as [H1 [H2 [H3 H4]]].
+  exists [2; 0; 1]%nat, g1, [it123], []. eexists.
+  split; [reflexivity|]. split; [exact H1|]. split; [exact H2|]. split; [exact H3|].
+  rewrite H4. discriminate.
+Qed.
+Print Assumptions map_one_param_refuted.
+
+(* ... what it does instead, for all inputs: the function is applied once to each whole iterable *)
+Theorem map_packed_applies_to_whole_iterables : forall be perm f iters kw,
+  nparams f <= 1 -> covers perm (length iters) ->
+  exec_map_gen pinned be perm f iters kw = collect (map (fun it => call f [ASeq it] kw) iters).
+Proof. exact map_packed_pinned. Qed.
+Print Assumptions map_packed_applies_to_whole_iterables.
+
+(* the proposed repair (unpack when the backend unpacks or there is exactly one iterable): all arities *)
+Theorem map_spec_fixed_all_arities : forall be perm f iters kw,
+  iters <> [] -> covers perm (minlen iters) ->
+  (be = MPPool -> (1 < nparams f /\ uniform iters = true) \/ (nparams f <= 1 /\ exists it, iters = [it])) ->
+  exec_map_gen fixed_map be perm f iters kw = spec_map f iters kw.
+Proof. exact map_spec_fixed. Qed.
+Print Assumptions map_spec_fixed_all_arities.
+
+(* starmap = itertools.starmap; backends with a native starmap (serial, multiprocessing pool): always;
+   concurrent.futures backends (fallback through map): rectangular rows of width >= 1, no kwargs *)
+Theorem starmap_spec : forall be perm f rows kw,
+  covers perm (length rows) ->
+  (backend_has_starmap be = false ->
+     kw = [] /\ uniform rows = true /\ (rows = [] \/ (hd [] rows <> [] /\ 1 < nparams f))) ->
+  exec_starmap_gen pinned be perm f rows kw = spec_starmap f rows kw.
+Proof. exact starmap_spec_pinned. Qed.
+Print Assumptions starmap_spec.
+
+Theorem starmap_spec_any_variant : forall q be perm f rows kw,
+  covers perm (length rows) ->
+  (backend_has_starmap be = false ->
+     (v_starmap_kw_to_list q = true -> kw = []) /\ uniform rows = true /\
+     (rows = [] \/ (hd [] rows <> [] /\ v_unpack q true (nparams f) (length (hd [] rows)) = true))) ->
+  exec_starmap_gen q be perm f rows kw = spec_starmap f rows kw.
+Proof. exact starmap_spec_gen. Qed.
+Print Assumptions starmap_spec_any_variant.
+
+Theorem starmap_kwargs_refuted : exists f rows kw perm r,
+  covers perm (length rows) /\ spec_starmap f rows kw = Some r /\
+  exec_starmap_gen pinned Thread perm f rows kw = None /\
+  exec_starmap_gen pinned Proc perm f rows kw = None.
+Proof.
+  exists g11, [[AInt 7]; [AInt 1]], [(0%nat, AInt 4)], [0; 1]%nat. eexists.
+  split; [apply coversb_covers; reflexivity | exact starmap_kwargs_witness].
+Qed.
+Print Assumptions starmap_kwargs_refuted.
+
+(* non-vacuity: a two-parameter map with uneven lengths completing in reverse order, and a starmap *)
+Example map_two_params_reverse_completion :
+  covers [1; 0]%nat (minlen [[AInt 7; AInt 5; AInt 3]; [AInt 10; AInt 20]]) /\
+  exec_map_gen pinned Thread [1; 0]%nat g2 [[AInt 7; AInt 5; AInt 3]; [AInt 10; AInt 20]] []
+  = Some [RApp 200 [AInt 7; AInt 10] [] []; RApp 200 [AInt 5; AInt 20] [] []].
+Proof. split; [apply coversb_covers; reflexivity | vm_compute; reflexivity]. Qed.
+
+Example starmap_fallback_reverse_completion :
+  exec_starmap_gen pinned Proc [2; 1; 0]%nat g2 [[AInt 7; AInt 1]; [AInt 5; AInt 2]; [AInt 3; AInt 3]] []
+  = spec_starmap g2 [[AInt 7; AInt 1]; [AInt 5; AInt 2]; [AInt 3; AInt 3]] [].
+Proof. vm_compute; reflexivity. Qed.
